@@ -48,6 +48,8 @@ def g_op(op, step):
         return "OAdvance (%d)%%Z" % op[1]
     if n == "sweep":
         return "OSweep"
+    if n == "set_status":
+        return "OSetStatus %d %s" % (op[1], {"G": "WRegistering", "R": "WReady", "U": "WUnhealthy", "D": "WDraining"}[op[2]])
     if n == "plan_deploy":
         return "OPlanDeploy %s %s" % (g_spec(op[1]), word)
     if n == "commit_deploy":
@@ -218,7 +220,7 @@ def c33_judge(timeout, ops, ans):
                     fails.append(tag + "w%d ready with heartbeat age %d > timeout %d not marked unhealthy" % (w, b["age"], timeout))
                 if not should and (nw[w]["st"] != b["st"] or w in marked):
                     fails.append(tag + "w%d (status %s, heartbeat age %d, timeout %d) changed to %s by the sweep" % (w, b["st"], b["age"], timeout, nw[w]["st"]))
-        else:
+        elif name != "set_status":
             for w, b in pw.items():
                 if w in nw and b["st"] == "R" and nw[w]["st"] == "U":
                     fails.append(tag + "w%d marked unhealthy by an operation that is not a health sweep" % w)
